@@ -273,12 +273,12 @@ def work(task):
     slowcls = [int(x) for t in tags if t.startswith('slow=') for x in t[5:].split(',') if x != '']
     for kind, sq in datasets:
         if kind == 'square':
-            for k in slowcls: sq['preT'][k] = sq['preT'][k] / 100
+            for k in slowcls: sq['preT'][k] = sq['preT'][k] / 10
             args = square_args(sq)
             datarep = dict(kind='square', qh=str(QH), spre=[str(x) for x in sq['spre']], ene=sq['ene'], preT=[str(x) for x in sq['preT']], eneT=sq['eneT'])
         else:
             args = rand_generic_args(rng, len(sl), len(jn), rng.choice([0.0, 0.5, 1.5, 3.0]))
-            for k in slowcls: args[2][k] = args[2][k] / 100
+            for k in slowcls: args[2][k] = args[2][k] / 10
             datarep = dict(kind='generic', pre=args[0], betaene=args[1], preT=args[2], betaeneT=args[3])
         rep0 = dict(desc, data=datarep)
         lam = rng.choice([0.037, 0.5, 3.7, 41.0])
